@@ -71,7 +71,12 @@ def jacobi_matrix(ode) -> sympy.Matrix:
     sympy.Matrix
         The Jacobian matrix of the ODE
     """
-    return rhs_matrix(ode).jacobian(states_matrix(ode))
+    # sympy leaves the derivatives of floor and Mod unevaluated
+    from .schemes import linearize
+
+    rhs = rhs_matrix(ode)
+    states = states_matrix(ode)
+    return sympy.Matrix(len(rhs), len(states), lambda i, j: linearize(rhs[i], states[j]))
 
 
 def Conditional(cond, true_value, false_value):
